@@ -123,17 +123,23 @@ func (s *state) genCase(i int, raceOnly bool) *kase {
 	if raceOnly {
 		fl = pick(rng, "keeper", "race-final", "race-final", "mix")
 	}
-	k := &kase{ID: fmt.Sprintf("case/%d", i), Flavour: fl, Sec: pick(rng, "noise", "tls"), FinalBy: pick(rng, "victim", "remote")}
+	// configuration crossing: flavour x security x remote address class x P's key type are enumerated
+	// by the case index (every combination is reached every 12*2*3*4 = 288 cases), the rest is random
+	j := i / len(flavours)
+	k := &kase{ID: fmt.Sprintf("case/%d", i), Flavour: fl, Sec: []string{"noise", "tls"}[j%2], FinalBy: pick(rng, "victim", "remote")}
+	k.PClass = []string{"pub", "priv", "loop"}[j/2%3]
 	types := []string{"ed25519", "ed25519", "ecdsa", "secp256k1", "rsa"}
-	kt := func() *sectest.Key {
-		ks := s.pool[pick(rng, types...)]
+	kt := func(typ string) *sectest.Key {
+		ks := s.pool[typ]
 		return ks[rng.IntN(len(ks))]
 	}
+	// the victim's identity is fresh for every case (the hook handlers find their case through it)
 	c := &cast{Self: sectest.GenKey("ed25519")}
-	used := map[peer.ID]bool{}
-	for _, dst := range []**sectest.Key{&c.P, &c.X, &c.Y, &c.Z} {
+	c.P = kt(sectest.KeyTypes[j/6%4])
+	used := map[peer.ID]bool{c.P.ID: true}
+	for _, dst := range []**sectest.Key{&c.X, &c.Y, &c.Z} {
 		for {
-			if kk := kt(); !used[kk.ID] {
+			if kk := kt(pick(rng, types...)); !used[kk.ID] {
 				used[kk.ID] = true
 				*dst = kk
 				break
@@ -142,7 +148,6 @@ func (s *state) genCase(i int, raceOnly bool) *kase {
 	}
 	k.cast = c
 	k.Keys = map[string]string{"P": c.P.Type, "X": c.X.Type, "Y": c.Y.Type, "Z": c.Z.Type}
-	k.PClass = pick(rng, "pub", "priv", "loop")
 	k.VClass = k.PClass
 	k.PKnown = rng.IntN(3) == 0
 	k.cl = newClaimLog()
@@ -338,9 +343,6 @@ func TestC13(t *testing.T) {
 	if raceOnly {
 		n = r.Pick(600, 4000)
 	}
-	if v := os.Getenv("C13_DEV_N"); v != "" {
-		fmt.Sscan(v, &n)
-	}
 
 	verifhook.Set(hookConsume, func(_ string, arg any) {
 		if c, ok := arg.(network.Conn); ok {
@@ -376,11 +378,7 @@ func TestC13(t *testing.T) {
 			return
 		}
 		k := s.genCase(i, raceOnly)
-		t0 := time.Now()
 		w, res := s.runCase(k)
-		if d := time.Since(t0); d > 2*time.Second && os.Getenv("C13_DEV_N") != "" {
-			fmt.Printf("SLOW %s %s %v conns=%d\n", k.ID, k.Flavour, d, len(k.Conns))
-		}
 		ok := s.judge(k, w, res)
 		sampleMu.Lock()
 		take := ok && !sampled[k.Flavour] && (k.Flavour == "race-final" || k.Flavour == "attrib" || k.Flavour == "keeper") && i >= 12
@@ -398,12 +396,14 @@ func TestC13(t *testing.T) {
 	if r.Replaying() {
 		return
 	}
-	q := func(quick, thorough int) int {
-		if raceOnly {
-			return 1
-		}
-		return r.Pick(quick, thorough)
+	if raceOnly {
+		// the race-detector pass runs the concurrent flavours only
+		r.Require("identify_completed", n)
+		r.Require("race_phases", n/4)
+		r.Require("final_expiry_checks_with_addresses_raced", n/20)
+		return
 	}
+	q := func(quick, thorough int) int { return r.Pick(quick, thorough) }
 	r.Require("identify_completed", q(6000, 120000))
 	r.Require("identify_failed", q(600, 12000))
 	r.Require("addrs_observed_from_listen", q(100000, 2000000))
@@ -456,6 +456,7 @@ func (s *state) judge(k *kase, w *world, res run.BubbleResult) bool {
 	}
 	r.Count("remote_class_"+k.PClass, 1)
 	r.Count("flavour_"+k.Flavour, 1)
+	r.Count("config_"+k.Sec+"_"+k.PClass+"_P"+k.cast.P.Type, 1)
 	msgs := []*msgSpec{}
 	for _, c := range k.Conns {
 		msgs = append(msgs, c.Resp)
